@@ -8,10 +8,13 @@ import copy
 import csv
 import io
 import json
+import math
+from fractions import Fraction
 
 from harness.impl import Q, enc_list, PRIO
 from eudoxia.workload.pipeline import Pipeline, Segment
 from eudoxia.workload.csv_io import CSVWorkloadReader, CSVWorkloadWriter, WorkloadTraceGenerator
+from eudoxia.workload.workload import WorkloadTrace
 
 ID = 'C14'
 KIND_READ, KIND_WRITE = 14, 24
@@ -855,7 +858,258 @@ def lazy_stream_case(recipe):
     return case, hits, info, applied
 
 
+# ----------------------------------------------------------------------------------------------
+# replaying a file (kind 44, coq/Model/TraceFile.v): the real WorkloadTrace over the real CSVWorkloadReader, one
+# run_one_tick per tick
+
+KIND_TRACEFILE = 44
+TF_TPS = [1, 2, 10, 100, 1000]
+U4 = Fraction(4, 2 ** 53)
+
+
+class SpyReader:
+    """pass-through around the real reader: notes the arrival_seconds of every PipelineArrival when batch_by_arrival
+    hands its batch on (run_one_tick returns bare Pipeline objects); exceptions and StopIteration pass through"""
+
+    def __init__(self, inner):
+        self.inner, self.arrival = inner, {}
+
+    def batch_by_arrival(self):
+        for b in self.inner.batch_by_arrival():
+            for pa in b:
+                self.arrival[id(pa.pipeline)] = (pa.pipeline, pa.arrival_seconds)
+            yield b
+
+
+def tracefile_real(text, tps, nticks, spy):
+    """WorkloadTrace(CSVWorkloadReader(file), tps), nticks calls of run_one_tick:
+    (what each call that returned returned, exception text or None, number of the raising call / -1 = constructor)"""
+    rd = CSVWorkloadReader(io.StringIO(text))
+    if spy:
+        rd = SpyReader(rd)
+    try:
+        wt = WorkloadTrace(rd, tps)
+    except Exception as e:                                       # noqa: BLE001  any exception = refused
+        return [], f'{type(e).__name__}: {e}', -1
+    calls = []
+    for t in range(nticks):
+        try:
+            ps = wt.run_one_tick()
+        except Exception as e:                                   # noqa: BLE001
+            return calls, f'{type(e).__name__}: {e}', t
+        calls.append([(p.pipeline_id, rd.arrival[id(p)][1] if spy else None) for p in ps])
+    return calls, None, None
+
+
+def tick_window(a, tps):
+    """ticks in which a batch whose parsed arrival_seconds is the float a may be due: the first tick at or after
+    a * tps, up to the rounding of the two float operations (relative 4 * 2^-53)"""
+    x = Fraction(a) * tps
+    if x <= 0:
+        return 0, 0
+    return max(0, math.ceil(x * (1 - U4))), max(0, math.ceil(x * (1 + U4)))
+
+
+def monitor_tracefile(recipe, text, rows, pid_tok, tps, nticks, calls, raised, where):
+    """the property on one replay of a file, without the model: the calls return, in file order and each once, whole
+    runs of equal arrival time of the leading well-formed pipelines; a run comes out in the first tick at or after
+    its arrival (float slack as in C13), or when the run before it comes out if that is later; an exception surfaces
+    only on a file that breaks a format rule, in the tick in which the last run before the lost one is due (from the
+    constructor if there is none), and then it does surface"""
+    hits = []
+
+    def hit(desc, sig):
+        hits.append(dict(desc=desc + f' (tps={tps}, {nticks} calls)', signature=sig, recipe=recipe, gen=recipe['gen'],
+                         detail=text[:2000]))
+    name_of = {v: k for k, v in pid_tok.items()}
+    bs = cell_batches(rows)
+    rules = [broken_rule(b) for b in bs]
+    nbad = next((k for k, r in enumerate(rules) if r), None)
+    lead = bs if nbad is None else bs[:nbad]
+    want = [(name_of[b[0]['pid']], b[0]['arr']) for b in lead]
+    runs = []
+    for w in want:
+        if runs and runs[-1][0][1] == w[1]:
+            runs[-1].append(w)
+        else:
+            runs.append([w])
+    lost = []
+    if nbad is not None and runs:
+        lost = runs.pop()
+    lo, hi, l, h = [], [], 0, 0
+    for r in runs:
+        a, b = tick_window(r[0][1], tps)
+        l, h = max(l, a), max(h, b)
+        lo.append(l)
+        hi.append(h)
+    info = dict(nbad=nbad, runs=len(runs), lost=len(lost), raised_at=where if raised else None, delivered=0,
+                dropped=0, late=0, early=0, late_decimal=0, shared_tick=0)
+    # the calls that returned: whole runs, in order
+    j = 0
+    for t, c in enumerate(calls):
+        rest = list(c)
+        k = 0
+        while rest:
+            if j >= len(runs) or rest[:len(runs[j])] != runs[j]:
+                hit(f'call {t} returned {c}; expected next the run {runs[j] if j < len(runs) else "nothing (all delivered)"} '
+                    f'of {runs}', 'tracefile-order')
+                return hits, info
+            if not lo[j] <= t <= hi[j]:
+                hit(f'the run {runs[j]} (arrival_seconds {runs[j][0][1]!r}) came out of call {t}; it is due in tick '
+                    f'{lo[j]}' + (f'..{hi[j]}' if hi[j] != lo[j] else ''), 'tracefile-tick')
+            x = Fraction(runs[j][0][1]) * tps
+            own = max(0, math.ceil(x))
+            info['late'] += t > max([own] + [max(0, math.ceil(Fraction(r[0][1]) * tps)) for r in runs[:j]])
+            info['early'] += t < own
+            info['late_decimal'] += t > max([math.ceil(Fraction(repr(r[0][1])) * tps) for r in runs[:j + 1]] + [0])
+            rest = rest[len(runs[j]):]
+            j += 1
+            k += 1
+        info['shared_tick'] += k > 1
+    info['delivered'] = j
+    if raised:
+        if nbad is None:
+            hit(f'WorkloadTrace raises {raised} in ' + ('the constructor' if where < 0 else f'call {where}')
+                + ' on a file that breaks no format rule', 'tracefile-refusal-spurious')
+        elif not runs:
+            if where != -1:
+                hit(f'no arrival batch precedes the refused pipeline {nbad}: the constructor must raise, but call {where} '
+                    f'raised {raised}', 'tracefile-refusal-moment')
+        elif where < 0:
+            hit(f'the constructor raises {raised} although {len(runs)} arrival batches precede the lost one',
+                'tracefile-refusal-moment')
+        else:
+            L = len(runs) - 1
+            if not lo[L] <= where <= hi[L]:
+                hit(f'call {where} raised {raised}; the last run before the lost one, {runs[L]}, is due in tick {lo[L]}'
+                    + (f'..{hi[L]}' if hi[L] != lo[L] else ''), 'tracefile-refusal-moment')
+            for i in range(j, len(runs)):
+                if hi[i] < where:
+                    hit(f'the run {runs[i]} due in tick {hi[i]} was not returned before call {where} raised',
+                        'tracefile-lost')
+                    break
+            info['dropped'] = len(runs) - j
+    else:
+        if nbad is not None and (not runs or hi[-1] < nticks):
+            hit(f'the file breaks a format rule at pipeline {nbad} ("{rules[nbad]}"), the look-ahead reaches it '
+                + (f'in tick {hi[-1]}' if runs else 'in the constructor') + f', but {len(calls)} calls returned without '
+                'an error', 'tracefile-refusal-missing')
+        for i in range(j, len(runs)):
+            if hi[i] < nticks:
+                hit(f'the run {runs[i]} is due in tick {hi[i]} < {nticks} but was never returned', 'tracefile-lost')
+                break
+        if len(calls) != nticks:
+            hit(f'{len(calls)} answers for {nticks} calls', 'tracefile-order')
+    return hits, info
+
+
+def enc_tracefile_result(calls, raised, where, pid_tok):
+    return (enc_list(calls, lambda c: enc_list(c, lambda pa: [pid_tok[pa[0]]] + Q(pa[1])))
+            + ([11, where] if raised else [0]))
+
+
+def tracefile_case(recipe):
+    """kind 44 for one recipe; returns (case or None, hits, info)"""
+    text, _ = write_real(recipe['base'])
+    applied = []
+    for m in recipe['muts']:
+        text, kind = mutate(text, m)
+        applied.append(kind)
+    tps, nticks = recipe['tps'], recipe['nticks']
+    try:
+        rows, pid_tok = cells_of_text(text)
+    except Unparseable:
+        return None, [], None
+    calls, raised, where = tracefile_real(text, tps, nticks, True)
+    plain = tracefile_real(text, tps, nticks, False)
+    hits = []
+    if ([[p for p, _ in c] for c in calls], raised, where) != ([[p for p, _ in c] for c in plain[0]], plain[1], plain[2]):
+        hits.append(dict(desc='the replay through the arrival-recording pass-through differs from the plain replay',
+                         signature='harness-spy-differs', recipe=recipe, gen=recipe['gen']))
+    h, info = monitor_tracefile(recipe, text, rows, pid_tok, tps, nticks, calls, raised, where)
+    info['applied'] = applied
+    case = dict(kind=KIND_TRACEFILE, inp=[tps, nticks] + enc_list(rows, enc_row),
+                obs=enc_tracefile_result(calls, raised, where, pid_tok), recipe=recipe, gen=recipe['gen'])
+    return case, hits + h, info
+
+
+def tf_arrival(rng, tps, k):
+    """an arrival time on or off the tick grid of rate tps, near grid point k"""
+    c = rng.random()
+    if c < 0.25:
+        return k / tps                                              # the double nearest to the grid point
+    if c < 0.42:
+        return k * (1.0 / tps)                                      # what generate_rows writes
+    if c < 0.57:
+        return math.nextafter(k / tps, rng.choice([-1.0, math.inf]))   # one ulp off
+    if c < 0.70:
+        return max(0.0, k / tps + rng.choice([1e-9, -1e-9, 1e-12, -1e-12, 1e-15 / tps]))
+    if c < 0.92:
+        return (k + rng.choice([0.25, 0.5, 0.3, 0.9, 0.999, 0.001])) / tps
+    if c < 0.97:
+        return round(rng.uniform(0, 30 / tps), rng.randint(1, 6))
+    return rng.choice([-0.5, -1.0 / tps, 0.0])                      # before time 0
+
+
+def gen_tracefile(rng):
+    """a file of 1-12 small pipelines in runs of 1-3 per arrival time; arrival times on and off the tick grid of the
+    replay rate (several spellings, one ulp off, several values inside one tick, sometimes out of order), or a file
+    written by generate_rows at the same or another rate; 0, 1 or 2 malformations; a run long enough, exactly long
+    enough, or too short to reach the last batch"""
+    tps = rng.choice(TF_TPS * 4 + [3, 7, 60])
+    if rng.random() < 0.2:
+        wtps = tps if rng.random() < 0.7 else rng.choice(TF_TPS)
+        ticks = [[gen_spec(rng, 3) for _ in range(rng.choice([0, 0, 0, 1, 1, 2]))] for _ in range(rng.randint(1, 14))]
+        if not any(ticks):
+            ticks[-1].append(gen_spec(rng, 3))
+        base = dict(gen='G-csv', mode='generate', tps=wtps, ticks=ticks)
+        arrs = [t * (1.0 / wtps) for t, tk in enumerate(ticks) if tk]
+    else:
+        pipes = []
+        n = rng.choice([1, 2, 3, 4, 5, 6, 7, 8, 9, 10, 12])
+        k = rng.choice([0, 0, 1, 2, 3, 7])
+        over = [j for j in range(1, 60) if (j / tps) / (1.0 / tps) > j]   # grid points whose float quotient overshoots (F7)
+        while len(pipes) < n:
+            if over and rng.random() < 0.2:
+                k = min([j for j in over if j >= k] or [k])
+                arr = k / tps
+            else:
+                arr = float(tf_arrival(rng, tps, k))
+            for _ in range(rng.choice([1, 1, 1, 1, 2, 3])):
+                if len(pipes) < n:
+                    pipes.append([arr, gen_spec(rng, 3)])
+            k += rng.choice([0, 0, 1, 1, 1, 2, 5])
+        if rng.random() < 0.8:
+            order = sorted(range(len(pipes)), key=lambda i: pipes[i][0])
+            pipes = [pipes[i] for i in order]
+        elif len(pipes) > 1 and rng.random() < 0.5:
+            i, j = rng.sample(range(len(pipes)), 2)
+            pipes[i][0], pipes[j][0] = pipes[j][0], pipes[i][0]
+        base = dict(gen='G-csv', mode='direct', pipes=pipes)
+        arrs = [a for a, _ in pipes]
+    c = rng.random()
+    nm = 0 if c < 0.35 else (1 if c < 0.85 else 2)
+    muts = []
+    for _ in range(nm):
+        kinds = MUST_REFUSE * 3 + ('duplicate_operator_id', 'repeat_pipeline_id', 'merge_adjacent', 'ws_priority')
+        for _ in range(20):
+            kind = rng.choice(kinds)
+            if suitable(base, kind):
+                break
+        a = rng.randint(0, 999)
+        npipes = len(base_specs(base))
+        if kind in ('first_no_priority', 'first_no_arrival', 'unknown_priority') and rng.random() < 0.6:
+            a = npipes - 1 - rng.randint(0, npipes // 2)            # a pipeline of the second half of the file
+        muts.append(dict(kind=kind, a=a, b=rng.randint(0, 999)))
+    last = min(60, max(0, math.ceil(max(arrs) * tps)))
+    nticks = rng.choice([last + 2] * 4 + [last + 1, last + 1, last, max(0, last - 1), last // 2, 1, 0])
+    return dict(gen='G-tracefile', tps=tps, nticks=nticks, base=base, muts=muts)
+
+
 def replay(recipe):
+    if recipe['gen'] == 'G-tracefile':
+        case, hits, _ = tracefile_case(recipe)
+        return case, hits
     if recipe['gen'] == 'G-csv-lazy':
         case, hits, _, _ = lazy_stream_case(recipe)
         return case, hits
@@ -971,6 +1225,35 @@ def run(ctx):
             note_lazy('long', info)
         else:
             st['lazy_below_cell_level'] += 1
+    for i in range(ctx.budget(800, 16000)):
+        rng = ctx.case_rng('G-tracefile', i)
+        rec = gen_tracefile(rng)
+        tcase, h, info = tracefile_case(rec)
+        hits += h
+        if not tcase:
+            st['tracefile_below_cell_level'] += 1
+            continue
+        note(tcase, True)
+        st['tracefile_files'] += 1
+        st[f'tracefile_tps_{rec["tps"]}'] += 1
+        st['tracefile_written_by_generate_rows'] += rec['base']['mode'] == 'generate'
+        st[f'tracefile_{len(rec["muts"])}_mutations'] += 1
+        if info['nbad'] is None:
+            st['tracefile_good'] += 1
+        elif info['raised_at'] is None:
+            st['tracefile_bad_not_reached_in_run'] += 1
+        elif info['raised_at'] < 0:
+            st['tracefile_raised_in_constructor'] += 1
+        else:
+            st['tracefile_raised_in_call_' + ('0' if info['raised_at'] == 0 else 'later')] += 1
+            st['tracefile_raise_dropped_batches_' + str(min(info['dropped'], 3))] += 1
+            st['tracefile_raised_after_deliveries'] += info['delivered'] > 0
+        st['tracefile_runs_delivered'] += info['delivered']
+        st['tracefile_runs_after_their_own_exact_tick'] += info['late']
+        st['tracefile_runs_before_their_own_exact_tick'] += info['early']
+        st['tracefile_runs_after_the_tick_of_the_decimal_cell'] += info['late_decimal']
+        st['tracefile_calls_returning_several_runs'] += info['shared_tick']
+        st['tracefile_lost_batch_nonempty'] += info['lost'] > 0
     return dict(cases=cases, hits=hits, dist=dict(st), distinct_nontrivial=len(seen),
                 rule='G-csv: files of 0-10 real Pipeline objects (DAGs of 1-8 operators, multi-parent, multi-root, shuffled '
                      'and duplicated parent entries, all seven laws, int/decimal/53-bit/tiny/huge/zero values, memory_gb '
@@ -983,5 +1266,10 @@ def run(ctx):
                      'two streams above and for G-csv-lazy (3-10 pipelines, runs of 1-3 pipelines per arrival time, 0/1/2 '
                      'malformations at random positions) the real batch_by_arrival() and batch_by_pipeline() generators are '
                      'driven one next() at a time; compared: the batches / pipelines delivered before the end or the '
-                     'exception, and whether an exception came',
+                     'exception, and whether an exception came. kind 44 (G-tracefile): the real '
+                     'WorkloadTrace(CSVWorkloadReader(file), tps) driven one run_one_tick at a time, tps in {1,2,10,100,1000,3,7,60}, '
+                     'arrival cells on the tick grid (k/tps, k*(1.0/tps)), one ulp / 1e-9..1e-15 off it, inside a tick, before 0, '
+                     'equal and out-of-order arrivals, files written by generate_rows at the same or another rate, 0-2 '
+                     'malformations, runs that end before / at / after the last batch; compared: the pipelines (id, arrival) '
+                     'each call returned and the call (or the constructor) out of which the refusal came',
                 samples=[cases[0]['recipe'], cases[-1]['recipe'].get('muts', cases[-1]['recipe'].get('mut'))] if cases else [])
